@@ -76,10 +76,10 @@ def ensure(repo=REPO, quiet=False):
                     raise SystemExit("[facts] E2 extraction failed")
                 os.rename(tmps, shape)
                 os.rename(tmpf, facts)
-                # keep only the 6 most recent fact sets
+                # keep only the 16 most recent fact sets
                 sets = sorted((x for x in os.listdir(CACHE) if x.startswith("facts-")),
                               key=lambda x: os.path.getmtime(os.path.join(CACHE, x)))
-                for old in sets[:-6]:
+                for old in sets[:-16]:
                     import shutil
                     shutil.rmtree(os.path.join(CACHE, old), ignore_errors=True)
         finally:
